@@ -42,7 +42,7 @@ EXTRA_SYMBOLS = [
 
 CONFIG_SOURCES = ["direct/config/defaults.py", "direct/data/datasets_config.py", "direct/common/subsample_config.py"]
 NAMED_MODULES = ["direct.data.datasets_config", "direct.data.datasets", "direct.common.subsample", "direct.data.transforms",
-                 "direct.common.subsample_config", "direct.config.defaults", "direct.functionals"]
+                 "direct.common.subsample_config", "direct.config.defaults", "direct.functionals", "torch.optim"]
 
 
 def cps(s: str) -> str:
@@ -106,6 +106,16 @@ class Info:
         self.sym: dict[str, int] = {}
         self.symbols: list[str] = []
         self.status: dict[str, str] = {}
+        # ---- phase 3: value-level guards, constructor signatures, consumers, attribute chains
+        self.guard_classes: list[dict] = []        # {route, module, attr, params, required, varkw, kw_policy, guards, opaque, …}
+        self.consumers: list[dict] = []             # {path, module, attr, param, needs, verified}
+        self.cfg_chains: list[tuple] = []           # (file, line, path, store, function, called)
+        self.engine_model_fields: list[tuple] = []  # (engine module, engine class, field, file:line)
+        self.str_to_class_sites: list[tuple] = []   # (file, function, module expression, modelled?)
+        self.interpolations: list[str] = []         # "<file>: <path> = <value>" for every `${…}` value / `defaults` list
+        self.builder_defaults: dict[str, object] = {}   # build_mri_transforms parameter -> default ("NODEFAULT" when none)
+        self.builder_required: list[str] = []
+        self.dead_model_keys: list[str] = []        # report only
 
     # ------------------------------------------------------------------------------------------
     def S(self, s: str) -> int:
@@ -337,6 +347,7 @@ def introspect(force: bool = False) -> Info:
                 info.registered_models.append((name[len("direct.nn."):] + "." + cls_name, "forward_operator" in ps))
                 info.strings.update(ps)
     _try(info, "registry of engines / datasets / masking functions / functionals", lambda: _registry(info, mods))
+    _try(info, "guards / signatures / consumers / attribute chains", lambda: _phase3(info, mods))
     info.symbols = sorted(info.strings)
     info.sym = {s: i for i, s in enumerate(info.symbols)}
     _INFO = info
